@@ -591,13 +591,13 @@ where
     fn dump<U: Write>(&mut self, dest: &mut U) -> Result<(), Error> {
         match self {
             Self::FileStart { filename, id } => {
-                dest.write_u8(ArchiveFileBlockType::FileStart as u8)?;
-                dest.write_u64::<LittleEndian>(*id)?;
                 let bytes = filename.as_bytes();
                 let length = bytes.len() as u64;
                 if length > FILENAME_MAX_SIZE {
                     return Err(Error::FilenameTooLong);
                 }
+                dest.write_u8(ArchiveFileBlockType::FileStart as u8)?;
+                dest.write_u64::<LittleEndian>(*id)?;
                 dest.write_u64::<LittleEndian>(length)?;
                 dest.write_all(bytes)?;
                 Ok(())
@@ -926,6 +926,11 @@ impl<W: InnerWriterTrait> ArchiveWriter<'_, W> {
 
     pub fn start_file(&mut self, filename: &str) -> Result<ArchiveFileID, Error> {
         check_state!(self.state, OpenedFiles);
+
+        // Refuse an over-long name before anything is registered or written
+        if filename.len() as u64 > FILENAME_MAX_SIZE {
+            return Err(Error::FilenameTooLong);
+        }
 
         if self.files_info.contains_key(filename) {
             return Err(Error::DuplicateFilename);
